@@ -3,6 +3,7 @@ offline oracles of vlib/oracles.py.  Each property has its own workload (dialect
 mechanism-free sub-workload in which no listed known mechanism can trigger by construction."""
 import contextlib
 import io
+import random
 import warnings
 
 from .. import common, findings, gen, indep, monitors, oracles
@@ -315,7 +316,13 @@ def run_case(rnd, cs, job, acc):
         acc.count("skipped-cyclic")
         return
     acc.count("dialect:" + name)
-    text = gen.render(m)
+    if prop == "C04" and rnd.random() < 0.5:
+        # the property names edges created by 'precedes' and relative/absolute references: the same model spelled that way
+        # (a fifth of the moved edges is ALSO kept as a bare 'depends': the gap written on the precedes entry still counts)
+        text = gen.render(m, refrnd=random.Random(cs + 1), precrnd=random.Random(cs + 2))
+        acc.count("spelled-with-precedes-and-mixed-references")
+    else:
+        text = gen.render(m)
     run_text(prop, m, text, acc, cs, name, mfree)
 
 
